@@ -353,10 +353,15 @@ func scenCodec(rep *Report, tier string, seed int64) {
 			Version      uint               `json:"version"`
 			Transactions []fat2.Transaction `json:"transactions"`
 		}{1, txs})
-		if err != nil {
-			continue
-		}
 		raw := string(content)
+		if err != nil {
+			// the encoder refuses this batch: write the content independently of it — if the decoder
+			// accepts what the encoder cannot write, the round trip below reports it
+			var sb strings.Builder
+			canonicalTree(txs).text(&sb)
+			raw = sb.String()
+			rep.Count("codec:encoder-refused")
+		}
 		kind := "canonical"
 		// byte-level mutations
 		switch r.Intn(16) {
